@@ -80,12 +80,270 @@ def generate(rng, tier):
         yield Case(["ck.oc64\t%d" % s64, "ck.ocnz64\t%d" % s64], {"k": "oc64", "s": s64})
         yield Case(["ck.oc32\t%d" % s32, "ck.ocnz32\t%d" % s32], {"k": "oc32", "s": s32})
         b8 = rbytes(rng, 8)
+        if rng.random() < 0.3:
+            b8 = bytes([0xFF] * 8)
         yield Case(["ck.add8_64\t%d\t%s" % (s64, hx(b8)), "ck.add4_64\t%d\t%s" % (s64, hx(b8[:4])), "ck.add2_64\t%d\t%s" % (s64, hx(b8[:2])),
                     "ck.add4_32\t%d\t%s" % (s32, hx(b8[:4])), "ck.add2_32\t%d\t%s" % (s32, hx(b8[:2]))], {"k": "adders", "s64": s64, "s32": s32, "data": hx(b8)})
+    yield from wire_cases(rng, tier)
+
+
+# ---- every route to a protocol checksum, from wire bytes (ck.w.*), and Sum16BitWords method chains (ck.s16)
+
+SAT16 = [bytes([0xFF] * 16), bytes([0xFF] * 8) + bytes(8), bytes.fromhex("20010db8000000000000000000000001"),
+         bytes.fromhex("dffef247fffffffffffffffffffffffe"), bytes(16), bytes([0xFF] * 15 + [0xFE])]
+
+
+def _addr(rng, n):
+    r = rng.random()
+    if r < 0.25:
+        return bytes([0xFF] * n)
+    if r < 0.35:
+        return bytes(n)
+    if r < 0.45 and n == 16:
+        return rng.choice(SAT16)
+    return rbytes(rng, n)
+
+
+def _addr_pair(rng, n):
+    a = _addr(rng, n)
+    r = rng.random()
+    if r < 0.25:
+        return a, bytes(x ^ 0xFF for x in a)  # complement: the accumulator saturates
+    if r < 0.35:
+        return a, a
+    return a, _addr(rng, n)
+
+
+def _payload(rng, tier):
+    r = rng.random()
+    if r < 0.15:
+        n = 0
+    elif r < 0.7:
+        n = rng.randrange(0, 40)
+    elif r < 0.95:
+        n = rng.randrange(40, 600)
+    else:
+        n = rng.randrange(600, 3000 if tier == "quick" else 30000)
+    if rng.random() < 0.2:
+        return bytes([rng.choice([0, 0xFF])] * n)
+    return rbytes(rng, n)
+
+
+def _ipv4_header(rng):
+    ihl = rng.choice([5, 5, 5, 6, 7, 10, 15])
+    h = bytearray(rbytes(rng, ihl * 4))
+    h[0] = 0x40 | ihl
+    if rng.random() < 0.2:
+        for i in range(len(h)):
+            if i != 0:
+                h[i] = rng.choice([0, 0xFF])
+    h[6] &= 0x7F  # the reserved flag bit has no place in Ipv4Header (the crate writes 0)
+    return bytes(h)
+
+
+def _udp_header(rng, plen):
+    h = bytearray(rbytes(rng, 8))
+    h[4:6] = (8 + plen).to_bytes(2, "big")
+    return bytes(h)
+
+
+def _tcp_header(rng):
+    doff = rng.choice([5, 5, 5, 6, 8, 11, 15])
+    h = bytearray(rbytes(rng, 20))
+    h[12] = (doff << 4) | (h[12] & 0x01)  # the three reserved bits have no place in TcpHeader
+    opts = bytearray()
+    while len(opts) < (doff - 5) * 4:
+        opts += bytes([1])  # NOP padding keeps the header decodable by every route
+    if opts and rng.random() < 0.6:
+        # opaque option bytes: an unknown kind with a length that covers the rest
+        n = len(opts)
+        opts = bytearray([253, n]) + bytearray(rbytes(rng, n - 2)) if n >= 2 else opts
+    return bytes(h) + bytes(opts)
+
+
+def _icmp4_message(rng, tier):
+    t = rng.choice(["echo", "echo", "unknown", "unknown", "unreach", "redirect", "timex", "param", "ts"])
+    pl = _payload(rng, tier)
+    ck = rbytes(rng, 2)
+    if t == "echo":
+        return bytes([rng.choice([0, 8]), 0]) + ck + rbytes(rng, 4) + pl
+    if t == "unknown":
+        ty = rng.choice([1, 2, 6, 7, 9, 10, 15, 16, 17, 18, 40, 100, 200, 255])
+        return bytes([ty, rng.randrange(256)]) + ck + rbytes(rng, 4) + pl
+    if t == "unreach":
+        code = rng.choice([0, 1, 2, 3, 5, 6, 7, 8, 9, 10, 11, 12, 13, 14, 15, 4])
+        rest = bytes(2) + rbytes(rng, 2) if code == 4 else bytes(4)
+        return bytes([3, code]) + ck + rest + pl
+    if t == "redirect":
+        return bytes([5, rng.randrange(4)]) + ck + rbytes(rng, 4) + pl
+    if t == "timex":
+        return bytes([11, rng.randrange(2)]) + ck + bytes(4) + pl
+    if t == "param":
+        code = rng.randrange(3)
+        rest = bytes([rng.randrange(256), 0, 0, 0]) if code == 0 else bytes(4)
+        return bytes([12, code]) + ck + rest + pl
+    return bytes([rng.choice([13, 14]), 0]) + ck + rbytes(rng, 16)
+
+
+def _icmp6_message(rng, tier, valid_for=None):
+    t = rng.choice(["echo", "echo", "unknown", "unknown", "unreach", "toobig", "timex", "param"])
+    pl = _payload(rng, tier)
+    ck = rbytes(rng, 2)
+    if t == "echo":
+        m = bytes([rng.choice([128, 129]), 0]) + ck + rbytes(rng, 4) + pl
+    elif t == "unknown":
+        ty = rng.choice([0, 5, 100, 101, 127, 138, 139, 150, 200, 201, 254, 255])
+        m = bytes([ty, rng.randrange(256)]) + ck + rbytes(rng, 4) + pl
+    elif t == "unreach":
+        m = bytes([1, rng.randrange(7)]) + ck + bytes(4) + pl
+    elif t == "toobig":
+        m = bytes([2, 0]) + ck + rbytes(rng, 4) + pl
+    elif t == "timex":
+        m = bytes([3, rng.randrange(2)]) + ck + bytes(4) + pl
+    else:
+        m = bytes([4, rng.randrange(3)]) + ck + rbytes(rng, 4) + pl
+    return m
+
+
+def _igmp_message(rng, tier):
+    t = rng.choice([0x11, 0x11, 0x12, 0x16, 0x17, 0x22, rng.choice([0, 1, 0x13, 0x30, 0xFF])])
+    h = bytearray(rbytes(rng, 8))
+    h[0] = t
+    if t in (0x12, 0x16, 0x17, 0x22):
+        h[1] = 0
+    if t == 0x11:
+        if rng.random() < 0.5:
+            return bytes(h)  # IGMPv1/v2 query: exactly 8 bytes
+        return bytes(h) + rbytes(rng, 4) + _payload(rng, tier)
+    return bytes(h) + _payload(rng, tier)
+
+
+def pseudo4(src, dst, proto, n):
+    return src + dst + bytes([0, proto]) + n.to_bytes(2, "big")
+
+
+def pseudo6(src, dst, proto, n):
+    return src + dst + n.to_bytes(4, "big") + bytes([0, 0, 0, proto])
+
+
+def zero_at(b, i, n=2):
+    return b[:i] + bytes(n) + b[i + n :]
+
+
+def wire_want(line):
+    """what the RFCs prescribe for a ck.w.* line, computed here from the line alone (so that shrunk
+    cases are judged by their own bytes); None for lines the harness answers with bad-op"""
+    p = line.split("\t")
+    op = p[0]
+    a = [bytes.fromhex(x) if x != "-" else b"" for x in p[1:]]
+    try:
+        if op == "ck.w.ipv4":
+            h = a[0]
+            if len(h) < 20 or h[0] >> 4 != 4 or (h[0] & 15) < 5 or len(h) < (h[0] & 15) * 4:
+                return "err"
+            if h[6] & 0x80:
+                return None
+            return "ok(%d)" % rfc1071(zero_at(h[: (h[0] & 15) * 4], 10))
+        if op in ("ck.w.udp4", "ck.w.udp6", "ck.w.tcp4", "ck.w.tcp6"):
+            src, dst, h, pl = a
+            v6 = op.endswith("6")
+            if len(src) != (16 if v6 else 4) or len(dst) != len(src):
+                return None
+            ps = pseudo6 if v6 else pseudo4
+            if "udp" in op:
+                if len(h) != 8 or int.from_bytes(h[4:6], "big") != 8 + len(pl):
+                    return None
+                w = rfc1071(ps(src, dst, 17, 8 + len(pl)) + zero_at(h, 6) + pl)
+                return "ok(%d)" % (0xFFFF if w == 0 else w)
+            if len(h) < 20 or len(h) != (h[12] >> 4) * 4 or h[12] & 0x0E:
+                return None
+            if not v6 and len(pl) > 0xFFFF - len(h):
+                return "err"
+            return "ok(%d)" % rfc1071(ps(src, dst, 6, len(h) + len(pl)) + zero_at(h, 16) + pl)
+        if op in ("ck.w.icmp4", "ck.w.igmp"):
+            m = a[0]
+            if len(m) < 8:
+                return None
+            if op == "ck.w.icmp4" and m[0] in (13, 14) and m[1] == 0 and len(m) != 20:
+                return None
+            if op == "ck.w.igmp" and m[0] == 0x11 and 8 < len(m) < 12:
+                return None
+            return "ok(%d)" % rfc1071(zero_at(m, 2))
+        if op == "ck.w.icmp6":
+            src, dst, m = a
+            if len(m) < 8 or len(src) != 16 or len(dst) != 16:
+                return None
+            w = rfc1071(pseudo6(src, dst, 58, len(m)) + zero_at(m, 2))
+            valid = rfc1071(pseudo6(src, dst, 58, len(m)) + m) == 0
+            return "ok(%d) valid=%s" % (w, "true" if valid else "false")
+    except (ValueError, IndexError):
+        return None
+    return None
+
+
+def wire_cases(rng, tier):
+    n = 500 if tier == "quick" else 12000
+    for _ in range(n):
+        h = _ipv4_header(rng)
+        yield Case(["ck.w.ipv4\t%s" % hx(h)], {"k": "w", "want": rfc1071(zero_at(h, 10)), "data": hx(h)})
+        for v in (4, 6):
+            src, dst = _addr_pair(rng, 4 if v == 4 else 16)
+            pl = _payload(rng, tier)
+            ps = pseudo4 if v == 4 else pseudo6
+            h = _udp_header(rng, len(pl))
+            w = rfc1071(ps(src, dst, 17, 8 + len(pl)) + zero_at(h, 6) + pl)
+            yield Case(["ck.w.udp%d\t%s\t%s\t%s\t%s" % (v, hx(src), hx(dst), hx(h), hx(pl))],
+                       {"k": "w", "want": 0xFFFF if w == 0 else w, "data": hx(pl)})
+            h = _tcp_header(rng)
+            w = rfc1071(ps(src, dst, 6, len(h) + len(pl)) + zero_at(h, 16) + pl)
+            yield Case(["ck.w.tcp%d\t%s\t%s\t%s\t%s" % (v, hx(src), hx(dst), hx(h), hx(pl))], {"k": "w", "want": w, "data": hx(pl)})
+        m = _icmp4_message(rng, tier)
+        yield Case(["ck.w.icmp4\t%s" % hx(m)], {"k": "w", "want": rfc1071(zero_at(m, 2)), "data": hx(m)})
+        m = _igmp_message(rng, tier)
+        yield Case(["ck.w.igmp\t%s" % hx(m)], {"k": "w", "want": rfc1071(zero_at(m, 2)), "data": hx(m)})
+        src, dst = _addr_pair(rng, 16)
+        m = _icmp6_message(rng, tier)
+        w = rfc1071(pseudo6(src, dst, 58, len(m)) + zero_at(m, 2))
+        r = rng.random()
+        if r < 0.5:
+            m = m[:2] + w.to_bytes(2, "big") + m[4:]  # a message that verifies
+        elif r < 0.6:
+            m = m[:2] + ((w + 1) & 0xFFFF).to_bytes(2, "big") + m[4:]  # off by one
+        elif r < 0.7 and w in (0, 0xFFFF):
+            m = m[:2] + (0xFFFF - w).to_bytes(2, "big") + m[4:]  # the other representation of zero
+        valid = rfc1071(pseudo6(src, dst, 58, len(m)) + m) == 0
+        yield Case(["ck.w.icmp6\t%s\t%s\t%s" % (hx(src), hx(dst), hx(m))],
+                   {"k": "w6", "want": w, "valid": valid, "data": hx(m)})
+    # Sum16BitWords method chains: random even-sized parts through add_2/4/8/16bytes and add_slice,
+    # biased to saturated accumulators (all ones) so that carries out of bit 63 happen
+    n = 3000 if tier == "quick" else 60000
+    for _ in range(n):
+        parts = []
+        for _ in range(rng.randrange(1, 7)):
+            sz = rng.choice([2, 4, 8, 16, 16, rng.randrange(0, 20) * 2])
+            r = rng.random()
+            if r < 0.45:
+                b = bytes([0xFF] * sz)
+            elif r < 0.55:
+                b = bytes(sz)
+            elif r < 0.65 and parts:
+                prev = parts[-1]
+                b = bytes((x ^ 0xFF) for x in (prev * (sz // max(1, len(prev)) + 1))[:sz]) if prev else rbytes(rng, sz)
+            else:
+                b = rbytes(rng, sz)
+            parts.append(b)
+        last = rbytes(rng, rng.choice([0, 1, 2, 3, 5, 8, 9, 16, 17]))
+        allb = b"".join(parts) + last
+        yield Case(["ck.s16\t%s" % "\t".join(hx(x) for x in parts + [last]), "spec.ck.rfc\t%s" % hx(allb)],
+                   {"k": "s16", "data": hx(allb)})
 
 
 def is_trivial(c):
     k = c.meta.get("k")
+    if k in ("w", "w6"):
+        return False
+    if k == "s16":
+        return len(c.meta["data"]) < 8
     if k in ("slice64", "slice32"):
         return len(c.meta["data"]) < 4 and c.meta["start"] == 0
     if k == "sum16":
@@ -124,6 +382,21 @@ def oracle(c):
                 out.append(("rfc1071-python", {"got": c.impl[0], "want": "%d %d" % (ref, refnz)}))
             if c.model[1] is not None and c.model[1] != "bad-op" and int(got[0]) != int(c.model[1]):
                 out.append(("rfc1071-spec", {"got": c.impl[0], "spec": c.model[1]}))
+        elif k in ("w", "w6"):
+            o = c.impl[0] or ""
+            want = wire_want(c.lines[0])
+            if want is None:
+                return out
+            if o != want:
+                name = "routes-differ" if "routes-differ" in o else ("header-reencode-differs" if "reencode" in o else "protocol-checksum-not-rfc")
+                out.append((name, {"op": c.lines[0].split("\t")[0], "got": o[:400], "want": want}))
+        elif k == "s16":
+            data = bytes.fromhex(c.meta["data"]) if c.meta["data"] != "-" else b""
+            ref = rfc1071(data)
+            refnz = 0xFFFF if ref == 0 else ref
+            got = c.impl[0].split(" ")
+            if int(got[0]) != ref or int(got[1]) != refnz:
+                out.append(("method-chain-not-rfc1071", {"got": c.impl[0], "want": "%d %d" % (ref, refnz)}))
         elif k in ("oc64", "oc32"):
             s = c.meta["s"]
             want = 0xFFFF - _swapfold(s)
